@@ -14,6 +14,9 @@ EVENTS = [
     ("putscript", "a", BODY2), ("deletescript", "a"), ("deletescript", "b"), ("setactive", "a"), ("setactive", "b"),
     ("setactive", ""), ("renamescript", "a", "b"), ("renamescript", "b", "a"), ("havespace", "a", 10), ("checkscript", BODY1),
     ("capability",), ("putscript", LONGQ, BODY1), ("deletescript", LONGQ),
+    # the same Client object connects again (to a server holding the same scripts): successfully, or asking for STARTTLS from a
+    # server that does not offer it - after which the session is not authenticated and nothing may reach the server
+    ("reconnect", "ok"), ("reconnect", "starttls-unavailable"),
 ]
 INITIAL = [
     ({}, None),
@@ -132,11 +135,41 @@ def run_history(init_i, version, hist, prefix, seg_choice, shadow=False):
         s.cur_socket().set_seg(("choice", CUTS + ([2, -1] if seg_choice is not True and seg_choice >= 2 else [])))
     bad = None
     step = -1
+    authed = True
     for step, ev in enumerate(hist):
+        if ev[0] == "reconnect":
+            new = LoggingServer(ch=ch, store={k: srv.store[k] for k in srv.order}, active=srv.active, version=version)
+            s.env["next_server"] = new
+            if ev[1] == "ok":
+                o = s.call("connect", "user", "pass")
+                authed = True
+                if not (o.kind == "ret" and o.value is True):
+                    bad = ("result", "second connect gave %s" % o.brief())
+            else:
+                o = s.call("connect", "user", "pass", starttls=True)
+                authed = False
+                if not (o.kind == "exc" and o.exc_type == "Error"):
+                    bad = ("result", "connect(starttls=True) to a server without STARTTLS gave %s" % o.brief())
+            srv = new
+            if seg_choice:
+                s.cur_socket().set_seg(("choice", CUTS + ([2, -1] if seg_choice is not True and seg_choice >= 2 else [])))
+            if bad:
+                break
+            continue
         pre_store, pre_active = dict(srv.store), srv.active
         nlog0 = len(srv.log)
         o = s.call(ev[0], *ev[1:])
         srv.leftover_violation()
+        if not authed:
+            if ev[0] == "capability":
+                pass  # CAPABILITY is legal before authentication
+            elif len(srv.log) != nlog0:
+                bad = ("unauthenticated-command", "%s reached the server on a connection that never authenticated: %r" % (ev[0], srv.log[nlog0:][:1]))
+            elif not (o.kind == "exc" and o.exc_type == "Error"):
+                bad = ("result", "%s without an authenticated session gave %s" % (ev[0], o.brief()))
+            if bad:
+                break
+            continue
         if ev[0] == "renamescript" and not version:
             # emulated: judged on the store (C14's rule), success iff old gone and new holds the content
             ok_shape = (o.kind == "ret" and o.value in (True, False)) or (o.kind == "exc" and o.exc_type == "Error")
@@ -182,7 +215,7 @@ def explore_history(init_i, version, hist, bound):
     def run(prefix):
         bad, step, srv, ch = run_history(init_i, version, hist, prefix, seg_choice=bound, shadow=not prefix)
         if not prefix:
-            final["state"] = (tuple((n, srv.store[n]) for n in sorted(srv.store)), srv.active)
+            final["state"] = (tuple((n, srv.store[n]) for n in sorted(srv.store)), srv.active, bool(srv.authenticated))
             final["bad"] = bad
         return ch.trace, (bad, step, ch)
 
@@ -197,6 +230,8 @@ def explore_history(init_i, version, hist, bound):
 
 
 def ev_label(ev):
+    if ev[0] == "reconnect":
+        return "reconnect(%s)" % ev[1]
     return "%s(%s)" % (ev[0], ",".join(("longq" if x == LONGQ else "body") if isinstance(x, str) and len(x) > 3 else repr(x) for x in ev[1:]))
 
 
